@@ -87,9 +87,17 @@ def r1(ctx: Ctx, rid: str) -> None:
         esc, _ = ctx.eff.propagate(ri, {"Exception"}, w.frames, record=False)
         ctx.ob(rid, ri, "_register_inflight: write failure propagates", w, bool(esc), "fail closed")
     rg = ctx.cfg(ri)
-    pay = [n for n in rg.nodes if n.kind == "stmt" and isinstance(n.ast, ast.Assign) and "payload" in norm_text(n.ast.targets[0])]
-    ctx.ob(rid, ri, "marker payload names the protected path", pay[0] if pay else None,
-           bool(pay) and "file_path" in names_in(pay[0].ast.value), "the collector learns WHICH file the marker protects")  # type: ignore[union-attr]
+    hook_param = next((p.name for p in ri.params if p.name != "self"), None)
+    mws = ctx.calls(ri, storage="write_file")
+    pay_ok = bool(mws) and hook_param is not None
+    for w in mws:
+        content = kwarg(w.ast, "content", 1) or kwarg(w.ast, "data", 1)
+        org = ctx.slicer(ri).origins(content, w.id) if content is not None else {"params": set(), "consts": set()}
+        if hook_param not in org["params"] or "file_path" not in org["consts"]:
+            pay_ok = False
+    ctx.ob(rid, ri, "marker payload names the protected path", mws[0] if mws else None, pay_ok,
+           "the collector learns WHICH file the marker protects: the marker content derives from the hook's path argument "
+           "under the 'file_path' key")
     app = [n for n in rg.calls() if isinstance(n.ast, ast.Call) and isinstance(n.ast.func, ast.Attribute)
            and n.ast.func.attr == "append" and "_inflight_markers" in norm_text(n.ast.func.value)]
     ctx.ob(rid, ri, "marker path is remembered for cleanup", app[0] if app else None, bool(app),
@@ -108,7 +116,8 @@ def r2(ctx: Ctx, rid: str = "C06.R2") -> None:
             org = sl.origins(path_arg(d), d.id)
             if "self._inflight_markers" in org["names"]:
                 owners.append((m, d))
-    names = sorted({m.name for m, _d in owners})
+    from .common import owner_tops
+    names = sorted({o.name for m, _d in owners for o in (owner_tops(ctx, m) or [m])})
     ctx.ob(rid, None, "marker-delete owners", None, names == ["_finish_committed", "_rollback"],
            f"functions deleting in-flight markers: {names}", text="marker-delete-census",
            file="src/datashard/transaction.py", line=0)
